@@ -87,6 +87,19 @@ fn cel_facts(c: &Cel, with_dig: bool) -> Value {
     v
 }
 
+// "the same entity" is decided by VALUE (everything the public API reports about it), never by address: whether two
+// access paths hand out the same object or equal copies is not something any property speaks about.
+fn tag_val(t: &asefile::Tag) -> Value {
+    json!([t.name(), t.from_frame(), t.to_frame(), t.animation_direction() as u32, t.repeat().map(|r| r.get()), ud(t.user_data())])
+}
+fn extfile_val(f: &asefile::ExternalFile) -> Value {
+    json!([f.id().value(), f.name()])
+}
+fn tileset_val(t: &Tileset) -> Value {
+    json!([t.id(), t.tile_count(), t.tile_size().width(), t.tile_size().height(), t.base_index(), t.name(), t.empty_tile_is_id_zero(),
+        t.external_file().map(|e| (e.external_file_id().value(), e.tileset_id()))])
+}
+
 pub struct Limits {
     /// emit pixel arrays (otherwise only digests and dimensions)
     pub pixels: bool,
@@ -198,7 +211,7 @@ pub fn observe(ase: &AsepriteFile, lim: &Limits) -> Value {
         (0..nt)
             .map(|i| {
                 let t = ase.tag(i);
-                let same = ase.get_tag(i).map_or(false, |g| std::ptr::eq(g, t));
+                let same = ase.get_tag(i).map_or(false, |g| tag_val(g) == tag_val(t));
                 json!({
                     "name": bytes(t.name()), "from": t.from_frame(), "to": t.to_frame(),
                     "dir": t.animation_direction() as u32,
@@ -220,7 +233,8 @@ pub fn observe(ase: &AsepriteFile, lim: &Limits) -> Value {
         names
             .iter()
             .map(|q| {
-                let hit = ase.tag_by_name(q).and_then(|t| (0..nt).find(|i| std::ptr::eq(ase.tag(*i), t)));
+                // the lowest index whose tag is indistinguishable from the one returned
+                let hit = ase.tag_by_name(q).and_then(|t| (0..nt).find(|i| tag_val(ase.tag(*i)) == tag_val(t)));
                 json!({"q": bytes(q), "hit": hit.map_or(json!([]), |i| json!([i]))})
             })
             .collect::<Vec<_>>()
@@ -288,8 +302,8 @@ pub fn observe(ase: &AsepriteFile, lim: &Limits) -> Value {
             .map()
             .iter()
             .map(|(id, f)| {
-                let same = ase.external_file_by_id(id).map_or(false, |g| std::ptr::eq(g, f))
-                    && ase.external_files().get(id).map_or(false, |g| std::ptr::eq(g, f));
+                let same = ase.external_file_by_id(id).map_or(false, |g| extfile_val(g) == extfile_val(f))
+                    && ase.external_files().get(id).map_or(false, |g| extfile_val(g) == extfile_val(f));
                 (id.value(), json!({"id": id.value().to_string(), "id2": f.id().value().to_string(), "name": bytes(f.name()), "get_same": same}))
             })
             .collect();
@@ -305,7 +319,7 @@ pub fn observe(ase: &AsepriteFile, lim: &Limits) -> Value {
         ts.sort_by_key(|t| t.id());
         ts.iter()
             .map(|t| {
-                let same = ase.tilesets().get(t.id()).map_or(false, |g| std::ptr::eq(g, *t));
+                let same = ase.tilesets().get(t.id()).map_or(false, |g| tileset_val(g) == tileset_val(t));
                 json!({
                     "id": t.id().to_string(), "count": u32n(t.tile_count()),
                     "tw": t.tile_size().width(), "th": t.tile_size().height(),
